@@ -46,7 +46,7 @@ def gen(rng, tier, index):
     for j in range(4):
         sched = dict(rng.choice(POLICIES), seed=rng.randrange(1 << 30))
         cases.append({
-            'desc': desc, 'sched': sched, 'epochs': 1,
+            'desc': desc, 'sched': sched, 'epochs': rng.choice([1, 1, 2]),
             'cost_seed': rng.randrange(1000), 'think_seed': rng.randrange(1000),
             'think_max': rng.choice([0, 5, 40]),
             'trace': ['parallel_utils', 'core'] if rng.random() < 0.2
